@@ -89,7 +89,9 @@ def run(tier):
     if not re.search(r"^#!\[no_std\]", src, re.M):
         rep.add("G-HYGIENE", "facade no_std", "the facade crate is no longer #![no_std]")
     # ---- W: hostile scope — everything must compile and mean the same
-    configs = ["plain"] if tier == "quick" else ["plain", "test"]
+    # the hostile crate depends on entrait only: with the cargo feature it has no direct `unimock` dependency,
+    # so every path the nested unimock expansion needs must go through ::entrait::__unimock as well
+    configs = ["plain", "unimock_test"] if tier == "quick" else ["plain", "test", "unimock", "unimock_test"]
     programs = 0
     for cfg in configs:
         ld = load(rep, "hostile", cfg)
